@@ -1,6 +1,6 @@
 (** * Short constructors used by the generated case files (instance [NumF]). *)
 From Coq Require Import ZArith Bool List String Floats.
-From RDM Require Import Base.Num Base.NumF Base.Util Model.Data Model.Pipeline.
+From RDM Require Import Base.Num Base.NumF Base.Util Model.Data Model.Listeners Model.Biases Model.Pipeline.
 Import ListNotations.
 
 Definition mkA (id : string) (vals : list (string * float)) : @alt NumF :=
@@ -44,3 +44,41 @@ Definition P_aspect (fn : string) (lp : @lparams NumF) (seed : Z) (w : list (str
   PAspect fn lp seed w rnd.
 Definition P_satisf (fn : string) (lp : @lparams NumF) (seed : Z) (cur : string) (rnd : bool) : @mparams NumF :=
   PSatisf fn lp seed cur rnd.
+
+(** bias requests *)
+Definition mkAA (id : string) (k : float) : @anchor_alt NumF := {| aa_id := id; aa_coef := k |}.
+Definition mkFP (name : string) (a b alpha mult : float) : @fparams NumF :=
+  {| fp_name := name; fp_a := a; fp_b := b; fp_alpha := alpha; fp_mult := mult |}.
+Definition mkBP (ordering : string) (ratio : float) (mn mx : Z) (seed : Z) (scaling : float) (nonneg : bool)
+           (ref_type : string) (ref_imp : float) (ref_seed : Z) (new_scaling mix_ratio : float)
+           (fat_fn : string) (fat_value fat_alpha fat_mult : float) (fat_query : Z)
+           (anch : list (@anchor_alt NumF)) (loss gain : @fparams NumF) (refp applier : string) (notcons : bool)
+  : @bprops NumF :=
+  {| bp_ordering := ordering; bp_ratio := ratio; bp_min := mn; bp_max := mx; bp_seed := seed;
+     bp_scaling := scaling; bp_nonneg := nonneg; bp_ref_type := ref_type; bp_ref_importance := ref_imp;
+     bp_ref_seed := ref_seed; bp_new_scaling := new_scaling; bp_mix_ratio := mix_ratio;
+     bp_fat_function := fat_fn; bp_fat_value := fat_value; bp_fat_alpha := fat_alpha; bp_fat_mult := fat_mult;
+     bp_fat_query := fat_query; bp_anch_alts := anch; bp_anch_loss := loss; bp_anch_gain := gain;
+     bp_anch_ref := refp; bp_anch_applier := applier; bp_anch_not_considered := notcons |}.
+Definition mkB (name : string) (disabled : bool) (prob : float) (p : @bprops NumF) : @biasreq NumF :=
+  {| b_name := name; b_disabled := disabled; b_prob := prob; b_props := p |}.
+
+(** observed reports *)
+Definition R_none : @report NumF := RNone.
+Definition R_omission (l : list (@crit NumF)) : @report NumF := ROmission l.
+Definition R_reversal (l : list (@crit NumF * (float * float) * list (string * float))) : @report NumF := RReversal l.
+Definition R_fatigue (f : float) (c n : list (@alt NumF)) : @report NumF := RFatigue f c n.
+Definition R_concealment (c : @crit NumF) (v : list (string * float)) (a : @addition NumF) : @report NumF := RConcealment c v a.
+Definition mkCP (id : string) (t : nat) (v : list (string * float)) : @component NumF :=
+  {| cp_id := id; cp_type := match t with O => TGain | S O => TCost | _ => TOther end; cp_values := v |}.
+Definition R_mixing (a b c : @component NumF) (ad : @addition NumF) : @report NumF := RMixing a b c ad.
+Definition R_anchoring (refs : list (@alt NumF)) (sc : list (string * (float * (float * float))))
+           (d : list (@alt NumF * list (string * list (string * float)))) (ar : @applier_report NumF) : @report NumF :=
+  RAnchoring refs sc d ar.
+Definition AR_inline (l : list (@alt NumF)) : @applier_report NumF := ARInline l.
+Definition AR_new (r : @crit NumF) (l : list (@crit NumF * list (string * float) * @addition NumF)) : @applier_report NumF := ARNew r l.
+Definition A_weight (id : string) (w : float) : @addition NumF := AWeight (mkC id 0 None) w.
+Definition A_electre (id : string) (ec : @ecrit NumF) : @addition NumF := AElectre id ec.
+Definition A_aspect (id : string) (w : float) (t : option (list float)) : @addition NumF := AAspect id w t.
+Definition A_satisf (id : string) (t : option (list float)) : @addition NumF := ASatisf id t.
+Definition A_unknown : @addition NumF := AUnknown.
